@@ -1,10 +1,28 @@
 """What MANIFEST.json claims, per property."""
 HOOK_COMMITS = ["77b2c42", "6128e10", "5f416f7", "71aa134", "8a2b985", "97ca607", "00b31e7"]
-FIX_COMMITS = ["5da2d24", "9b55744", "1ceb643", "2d49340", "9d87992", "737054a", "6331ab3", "02d90a3"]
+FIX_COMMITS = ["5da2d24", "9b55744", "1ceb643", "2d49340", "9d87992", "737054a", "6331ab3", "02d90a3", "55099e0"]
 NOTES = ("Every check: TLC model-checks the module's design on small constants, then binds it to /repo's current working "
          "tree (rebuilt on every run with -tags verif). Exit 2 = infrastructure problem, never a verdict.")
 NOT_APPLICABLE = {}
 CHECKS = {
+    "C17": {
+        "text": "FzfOptions.tla models option parsing as a word-level fold Consume over the sources options-file -> $FZF_DEFAULT_OPTS "
+                "-> argv (flags with --no- twins, required/optional values, =value, short attached forms, cumulative --bind/"
+                "--expect/--color/--preview-window, --history+--history-size, --scheme resetting --tiebreak, per-source and final "
+                "validation); FzfBind.tla models the --bind grammar (PrintBind/Meaning = documented grammar, ParseBind = the "
+                "masking scanner at atom level). TLC proves ParseBind(PrintBind(b)) = Meaning(b) for all 17 delimiter forms x 16 "
+                "contexts x every argument <= 3 over {a + , : ( ) blank} the form can carry, and the fold laws (layering = "
+                "concatenation, last occurrence wins, earlier settings persist, errors stick) over all ordered pairs of 277 option "
+                "occurrences in all source placements. Every enumerated case (config projection / keymap / error + naming source) "
+                "is replayed on the real ParseOptions / parseKeymap; random bind strings and random argv/env/file triples with "
+                "arbitrary values through the real binary are judged by TLC (exit 2 <=> spec invalid, stderr message, no panic).",
+        "design_ref": "DESIGN.md §6 C17, §9 F4",
+        "note": "Vocabulary of 20 valued options + flags; atoms chosen so no two concatenate into a name; arbitrary texts are opaque "
+                "to the spec and used only where validity does not depend on content; stdin never a tty; error text compared only "
+                "by source; totality over arbitrary bytes is monitored (panic check), not proven. Trusted: TLC, the Go projection "
+                "code, python's shell quoting of J inputs.",
+        "technique": "TLA+ spec + TLC exhaustive MC; TLC-enumerated/simulated cases replayed on real code; TLC as judge of recorded real executions",
+    },
     "C04": {
         "text": "FzfRank.tla (Key from text/offsets/score/criteria, code-derived and 16-bit clamped; Less = keys then input index, "
                 "reversed under tac; Ranked = unique sorted permutation; input order for +s / empty / only-negated queries; "
